@@ -140,3 +140,44 @@ func distinctRoots(f []*Tree) bool {
 	}
 	return true
 }
+
+// bigShapes: forests that are large in one dimension each (depth, fan-out, number of roots, name length, total size).
+func bigShapes() map[string][]*Tree {
+	out := map[string][]*Tree{}
+	// a chain 14 deep with a sibling at every level
+	deep := &Tree{Name: "d0"}
+	cur := deep
+	for i := 1; i < 14; i++ {
+		next := &Tree{Name: "d" + fmtInt(i)}
+		cur.Kids = []*Tree{{Name: "s" + fmtInt(i)}, next, {Name: "t" + fmtInt(i), Kids: []*Tree{{Name: "leaf.go"}}}}
+		cur = next
+	}
+	out["deep"] = []*Tree{deep}
+	wide := &Tree{Name: "wide"}
+	for i := 0; i < 300; i++ {
+		k := &Tree{Name: "k" + fmtInt(i)}
+		if i%37 == 0 {
+			k.Kids = []*Tree{{Name: "x.go"}, {Name: "y"}}
+		}
+		wide.Kids = append(wide.Kids, k)
+	}
+	out["wide"] = []*Tree{wide}
+	var many []*Tree
+	for i := 0; i < 27; i++ {
+		many = append(many, &Tree{Name: "r" + fmtInt(i), Kids: []*Tree{{Name: "a", Kids: []*Tree{{Name: "b.go"}, {Name: "c", Kids: []*Tree{{Name: "d"}}}}}, {Name: "e" + fmtInt(i%5)}}})
+	}
+	out["many-roots"] = many
+	out["long-names"] = []*Tree{{Name: strings.Repeat("n", 300), Kids: []*Tree{{Name: strings.Repeat("m", 5000) + ".go"}, {Name: "short", Kids: []*Tree{{Name: strings.Repeat("é", 200)}}}}}}
+	var huge []*Tree
+	for i := 0; i < 1500; i++ {
+		t := &Tree{Name: "h" + fmtInt(i)}
+		for j := 0; j < 6; j++ {
+			t.Kids = append(t.Kids, &Tree{Name: "child-" + fmtInt(j) + "-" + strings.Repeat("z", 20), Kids: []*Tree{{Name: "g.go"}}})
+		}
+		huge = append(huge, t)
+	}
+	out["huge"] = huge
+	return out
+}
+
+var bigShapeOrder = []string{"deep", "wide", "many-roots", "long-names", "huge"}
